@@ -8,7 +8,8 @@
 (*   one_line     each text is one JSON object, nothing after it, no raw    *)
 (*                line break                                                *)
 (*   no_dup       no object at any depth has two equal keys                 *)
-(*   finite       no NaN / Infinity token                                   *)
+(*   finite       no NaN / Infinity token, and no non-finite float written  *)
+(*                as null                                                   *)
 (*   df           (DF 0 4 5 11 16 17 18 20 21) the df entry is the decimal  *)
 (*                downlink format of the bytes                              *)
 (*   icao24       (same formats, when the frame carries an address) the     *)
@@ -18,14 +19,22 @@
 (*   frame        the `frame` entry of the timed record is a hex string     *)
 (*                whose bytes (frame_b, decoded by the harness) are the input *)
 (*   redecode     decoding that hex again succeeds and serialises to the    *)
-(*                same text (hashes of the texts)                           *)
+(*                same text (hashes of the texts).  "Same fields" is judged *)
+(*                on the serialised text on purpose: it is what a consumer  *)
+(*                sees, and it is insensitive to NaN # NaN (a NaN is the    *)
+(*                business of `finite`)                                     *)
 EXTENDS ModeSFrame, TraceBase
 
 Serialises(ev) == ev.ser = "ok" /\ ev.ser_t = "ok"
 OneLine(ev) == /\ ev.parsed /\ ev.top_obj /\ ~ev.trailing /\ ev.newlines = 0
                /\ ev.t_parsed /\ ev.t_top_obj /\ ~ev.t_trailing /\ ev.t_newlines = 0
 NoDup(ev) == ev.dups = 0 /\ ev.t_dups = 0
-Finite(ev) == ev.nonfinite = 0 /\ ev.t_nonfinite = 0
+(* serde_json writes a NaN / infinite float as `null`, like an absent value: *)
+(* hidden_nf counts the floats of the serialised struct that are not finite *)
+(* (probe serializer of the harness, every nesting level); an absent value  *)
+(* (None -> null or omitted) is not a number and is not counted.            *)
+Finite(ev) == /\ ev.nonfinite = 0 /\ ev.t_nonfinite = 0
+              /\ ev.hidden_nf = 0 /\ ev.t_hidden_nf = 0
 Addressed(ev) == ShownDF(ev.bytes) \in AddressedDF
 DfOk(ev) == Addressed(ev) =>
               LET d == Decimal(ShownDF(ev.bytes)) IN ev.df = d /\ ev.tdf = d
